@@ -36,7 +36,7 @@ func runC14(r *core.Run) {
 	r.Rule("R14.2", "only completely received packets are returned without error; EOF-like errors only with a complete body", 3, false)
 	r.Rule("R14.3", "every loop around a transport read is bounded by a context/timeout test", 1, true)
 	r.Rule("R14.4", "Conn.ReadFrom parses a packet if and only if err == nil or EOF, reports every other error on Conn.errCh", 4, false)
-	r.Rule("R14.5", "NextPackage surfaces Conn.errCh errors", 1, false)
+	r.Rule("R14.5", "NextPackage surfaces Conn.errCh errors, to waiting and to polling consumers", 2, false)
 	r.Rule("R14.6", "queued packages are delivered before a queued error (prefix, then error)", 1, false)
 	r.Rule("R14.7", "the reader goroutine only ends when the connection context is done or after an EOF", 2, false)
 	r.Rule("R14.8", "only the reader goroutine reports on the error queues; request writes return their error", 1, false)
@@ -316,9 +316,62 @@ func c14Complete(r *core.Run, rule string, isEOFZero func(ssa.Value) bool) {
 		}
 		return false, false
 	}
+	// Other ways of writing "the body is complete" that are accepted:
+	//   counter == len(packet.Data)            (a counter of body bytes against the body's length)
+	//   len(rest) == 0                         (rest: the part of packet.Data still to be filled) — provided rest
+	//                                          is advanced by the count of every read on every way back to the read
+	dataF := p.Field("tds", "Packet", "Data")
+	lenArg := func(v ssa.Value) ssa.Value {
+		c, ok := core.Strip(v).(*ssa.Call)
+		if !ok {
+			return nil
+		}
+		if bi, isB := c.Call.Value.(*ssa.Builtin); !isB || bi.Name() != "len" {
+			return nil
+		}
+		return c.Call.Args[0]
+	}
+	var readCount ssa.Value
+	restWhy := ""
+	restOK := func(v ssa.Value, ph *ssa.Phi, seen map[ssa.Value]bool) bool {
+		ok, why := restSliceAdvanced(ph, readCount, dataF)
+		if !ok {
+			restWhy = why
+		}
+		return ok
+	}
+	isAltComplete := func(cond ssa.Value) (eq bool, ok bool) {
+		bo, isb := cond.(*ssa.BinOp)
+		if !isb || (bo.Op != token.EQL && bo.Op != token.NEQ) {
+			return false, false
+		}
+		for _, sw := range [][2]ssa.Value{{bo.X, bo.Y}, {bo.Y, bo.X}} {
+			la := lenArg(sw[0])
+			if la == nil {
+				continue
+			}
+			if f, _ := core.FieldLoad(core.Strip(la)); f == dataF {
+				return bo.Op == token.EQL, true
+			}
+			if sl, isS := la.(*ssa.Slice); isS && sl.High == nil && sl.Low != nil && core.Strip(sl.Low) == readCount {
+				la = sl.X // the rest after this read's bytes
+			}
+			if ph, isP := la.(*ssa.Phi); isP {
+				if z, isC := core.ConstInt64(sw[1]); isC && z == 0 {
+					if restOK(ph, ph, map[ssa.Value]bool{}) {
+						return bo.Op == token.EQL, true
+					}
+				}
+			}
+		}
+		return false, false
+	}
 	complete := func(conds []core.EdgeCond) bool {
 		for _, c := range conds {
 			if eq, ok := isLenCmp(c.If.Cond); ok && eq == c.Pol {
+				return true
+			}
+			if eq, ok := isAltComplete(c.If.Cond); ok && eq == c.Pol {
 				return true
 			}
 		}
@@ -348,6 +401,13 @@ func c14Complete(r *core.Run, rule string, isEOFZero func(ssa.Value) bool) {
 		return
 	}
 	e, _ := errResult(read)
+	if rv := read.Value(); rv != nil {
+		for _, ref := range *rv.Referrers() {
+			if ex, ok := ref.(*ssa.Extract); ok && ex.Index == 0 {
+				readCount = ex
+			}
+		}
+	}
 	// enumerate paths from the read's block to every return
 	type agg struct {
 		ret      *ssa.Return
@@ -372,6 +432,9 @@ func c14Complete(r *core.Run, rule string, isEOFZero func(ssa.Value) bool) {
 			a.nilPaths++
 			if !complete(pa.Conds) {
 				a.bad = "a nil-error return is reachable without the test totalBytes == Header.Length succeeding: an incomplete packet would be parsed"
+				if restWhy != "" {
+					a.bad = "completeness is tested on the rest of the body, but " + restWhy
+				}
 			}
 			return
 		}
@@ -646,6 +709,35 @@ func c14NextPackage(r *core.Run) {
 		return
 	}
 	r.Check(ok, "R14.5", "(*tds.Channel).NextPackage", fn.Pos(), "case err := <-tdsConn.errCh returns fmt.Errorf(...%w, err)", "the Conn.errCh case does not return an error wrapping the received transport error")
+	// a polling consumer (wait == false) is told "no package ready" only by a select that also offers the error
+	// queues: a return of ErrNoPackageReady ahead of it hides a dead connection from the consumer for good
+	noPkg := p.Global("tds", "ErrNoPackageReady")
+	whyPoll := ""
+	for _, ret := range core.Returns(fn) {
+		rv := core.RetVals(ret)
+		u, isU := core.Strip(rv[len(rv)-1]).(*ssa.UnOp)
+		if !isU || u.X != ssa.Value(noPkg) {
+			continue
+		}
+		consulted := false
+		for _, b := range fn.Blocks {
+			for _, in := range b.Instrs {
+				sel, isSel := in.(*ssa.Select)
+				if !isSel || !core.Dominates(sel, ret) {
+					continue
+				}
+				for _, st := range sel.States {
+					if f, _ := core.FieldLoad(st.Chan); f == errCh && st.Dir == types.RecvOnly {
+						consulted = true
+					}
+				}
+			}
+		}
+		if !consulted {
+			whyPoll = "NextPackage returns ErrNoPackageReady (" + p.Pos(ret.Pos()) + ") without having offered the error queues in a select: a consumer polling with wait == false gets the queued packages and then \"no package ready\" forever, the transport error is never reported"
+		}
+	}
+	r.Check(whyPoll == "", "R14.5", "(*tds.Channel).NextPackage: polling sees queued errors", fn.Pos(), "ErrNoPackageReady only reaches the caller through the select that receives from the error queues", whyPoll)
 }
 
 // selectBranchReturns returns the Return instructions reached when the
@@ -991,4 +1083,52 @@ func c14SendFailureReturns(r *core.Run, rule string) {
 	if n == 0 {
 		r.Unknown(rule, "sendPackets: sendPacket call", fn.Pos(), "no sendPacket call found")
 	}
+}
+
+// restSliceAdvanced: ph is "the part of packet.Data still to be filled" of a read loop — its inputs are packet.Data
+// itself and ph[n:] with n the count of the loop's read, and no way back to the read leaves it as it was.
+func restSliceAdvanced(ph *ssa.Phi, readCount ssa.Value, dataF *types.Var) (bool, string) {
+	why := ""
+	skipped := "on a way back to the read (a `continue`) the rest of the body is not advanced by the bytes that read delivered: they are counted as received and overwritten by the next read — the packet is declared complete with garbled content"
+	seen := map[ssa.Value]bool{}
+	var ok func(v ssa.Value) bool
+	ok = func(v ssa.Value) bool {
+		if seen[v] {
+			return true
+		}
+		seen[v] = true
+		if f, _ := core.FieldLoad(core.Strip(v)); f == dataF {
+			return true
+		}
+		switch x := v.(type) {
+		case *ssa.Slice:
+			if x.High == nil && x.Max == nil && x.Low != nil && readCount != nil && core.Strip(x.Low) == readCount {
+				if x.X == ssa.Value(ph) {
+					return true
+				}
+				if p2, isP := x.X.(*ssa.Phi); isP {
+					return ok(p2)
+				}
+			}
+			why = "the rest of the body is re-sliced as " + core.Expr(v) + ", not advanced by the count of the read"
+			return false
+		case *ssa.Phi:
+			for _, e := range x.Edges {
+				if e == ssa.Value(ph) {
+					why = skipped
+					return false
+				}
+				if !ok(e) {
+					return false
+				}
+			}
+			return true
+		}
+		why = "the rest of the body is " + core.Expr(v)
+		return false
+	}
+	if ok(ph) {
+		return true, ""
+	}
+	return false, why
 }
